@@ -40,6 +40,9 @@ pub struct HedgeCase {
     /// ready); the instance the caller polled ready is ready at once
     #[serde(default)]
     pub clone_ready_ms: u64,
+    /// attempts use up the cooperative budget in the poll they complete in
+    #[serde(default)]
+    pub drain_budget: bool,
 }
 
 fn one() -> u64 {
@@ -66,9 +69,9 @@ fn case_strategy(_tier: Tier) -> BoxedStrategy<HedgeCase> {
         prop::collection::vec(any::<u8>(), 0..=8),
         prop_oneof![6 => Just(1u64), 1 => Just(3u64), 1 => Just(7u64), 1 => Just(25u64), 1 => Just(60u64), 1 => 2u64..=120],
         any::<bool>(),
-        prop_oneof![3 => Just(0u64), 1 => 1u64..=40, 1 => (1u64..=8).prop_map(|k| k * 10)],
+        (prop_oneof![3 => Just(0u64), 1 => 1u64..=40, 1 => (1u64..=8).prop_map(|k| k * 10)], prop::bool::weighted(0.2)),
     )
-        .prop_map(|(max, delay, attempts, order, step_ms, max_last, clone_ready_ms)| HedgeCase {
+        .prop_map(|(max, delay, attempts, order, step_ms, max_last, (clone_ready_ms, drain_budget))| HedgeCase {
             max,
             delay,
             attempts,
@@ -77,6 +80,7 @@ fn case_strategy(_tier: Tier) -> BoxedStrategy<HedgeCase> {
             max_last,
             // coarse clock steps and paced readiness are generated separately
             clone_ready_ms: if step_ms > 1 { 0 } else { clone_ready_ms },
+            drain_budget,
         })
         .boxed()
 }
@@ -124,7 +128,7 @@ async fn interp(case: &HedgeCase) -> Verdict {
         case.attempts
             .iter()
             .map(|&(lat, ok)| Step {
-                lat: Lat::Ms(lat),
+                lat: if case.drain_budget { Lat::MsDrain(lat) } else { Lat::Ms(lat) },
                 out: if ok { Out::Ok } else { Out::Err(5) },
             })
             .collect(),
